@@ -68,6 +68,7 @@ class Check:
         self.samples = []
         self.violations = []          # dicts: sig, key, case, expected, got
         self.viol_keys = {}           # key -> sig   (all, uncapped)
+        self.sig_count = {}
         self.assumptions = []
         self.notes = {}
         self.caps = []                # caps that were hit
@@ -97,7 +98,9 @@ class Check:
     def violation(self, v):
         v.setdefault('key', case_key(v['case']))
         self.viol_keys.setdefault(v['key'], v.get('sig', ''))
-        if len(self.violations) < 400:
+        n = self.sig_count.get(v.get('sig', ''), 0)
+        if n < 3 and len(self.violations) < 2000:
+            self.sig_count[v.get('sig', '')] = n + 1
             self.violations.append(v)
 
     def on_result(self, idx, status, res):
